@@ -630,6 +630,20 @@ def r_linestrip(P, chk):
             desc = [n for n in block_nodes(g, blocks) if n["k"] == "CallExpr" and (n.get("callee") or "").startswith("mmd_export_token_tree")
                     and any(resolve_key(g, a) == tp + "->child" for a in n["c"][1:])]
             okw = bool(calls) and bool(desc) and all(any(g.cfg.dominates(c["i"], d["i"]) for c in calls) for d in desc)
+            if not okw:
+                # the table branch was extracted into a helper of the unit: the same order must hold inside it
+                for n2 in block_nodes(g, blocks):
+                    if n2["k"] != "CallExpr" or not n2.get("callee"):
+                        continue
+                    hh = g.unit.funcs.get(n2["callee"])
+                    if hh is None or hh is g:
+                        continue
+                    hcalls = [x for x in hh.calls(h.name)]
+                    htoks = [q[0] for q in hh.params if "token" in q[1]]
+                    hdesc = [x for x in hh.calls() if (x.get("callee") or "").startswith("mmd_export_token_tree")
+                             and any(resolve_key(hh, a) in [t2 + "->child" for t2 in htoks] for a in x["c"][1:])]
+                    if hcalls and hdesc and all(any(hh.cfg.dominates(c["i"], d["i"]) for c in hcalls) for d in hdesc):
+                        okw = True
             chk.obligation(rid, "%s: the table branch runs read_table_column_alignments before it exports the rows" % fn, okw)
             if not okw:
                 chk.violation(rid, "linestrip:retire:%s" % fn, g.where(), "%s exports a table's rows without read_table_column_alignments "
